@@ -14,6 +14,8 @@ import time
 
 HERE = os.path.dirname(os.path.abspath(__file__))
 VERIF = os.path.dirname(HERE)
+# where evidence/ and replays/ are written: /verif, unless a mutant / scratch run redirects it
+OUT = os.environ.get("VERIF_OUT", VERIF)
 
 
 def _reexec_with_env():
@@ -124,7 +126,7 @@ def cmd_check(args):
     known = load_known(prop)
     exit_code = 0
     reported = []
-    os.makedirs(os.path.join(VERIF, "replays"), exist_ok=True)
+    os.makedirs(os.path.join(OUT, "replays"), exist_ok=True)
     seen_kinds = {}
     n_unlisted = 0
     for job, r in agg["violations"]:
@@ -141,7 +143,7 @@ def cmd_check(args):
                                           max_wall=float(os.environ.get("VERIF_MINIMISE_S", "120")),
                                           log=lambda s: print(s, flush=True))
         final = mres or r
-        path = os.path.join(VERIF, "replays", f"{prop}-{kind}-{job.tag[1]}.json")
+        path = os.path.join(OUT, "replays", f"{prop}-{kind}-{job.tag[1]}.json")
         replay = dict(property=prop, violation_kind=kind, message=final.get("message"), tier=tier,
                       found_by=dict(verif_seed=verif_seed, run=job.tag[0], run_seed=job.tag[1],
                                     original_decisions=len(r.get("decisions", {}))),
@@ -198,8 +200,8 @@ def cmd_check(args):
     ev = dict(property_id=prop, tier=tier, seed=verif_seed, level=driver.LEVEL.get(tier, "exploration") if isinstance(driver.LEVEL, dict) else driver.LEVEL,
               coverage=cov, assumptions=list(driver.ASSUMPTIONS), wall_s=round(wall, 2),
               violations=n_unlisted)
-    os.makedirs(os.path.join(VERIF, "evidence"), exist_ok=True)
-    with open(os.path.join(VERIF, "evidence", f"{prop}.json"), "w") as f:
+    os.makedirs(os.path.join(OUT, "evidence"), exist_ok=True)
+    with open(os.path.join(OUT, "evidence", f"{prop}.json"), "w") as f:
         json.dump(ev, f, indent=1, default=str)
     print(f"{prop}: runs={evals} distinct={len(agg['sigs'])} violations={agg['violation']} (unlisted kinds {n_unlisted}) "
           f"inconclusive={agg['inconclusive']} harness_errors={agg['harness_error']} wall={wall:.1f}s "
